@@ -14,9 +14,15 @@ pub enum ServerEvent {
     ClientDisconnected { client_id: ClientId, reason: DisconnectReason },
 }
 
+#[cfg(not(feature = "verif"))]
+type ConnectionMap = HashMap<ClientId, RenetClient>;
+// Verification hook: the iteration order of the connection table becomes a function of a seed the simulator sets
+#[cfg(feature = "verif")]
+type ConnectionMap = HashMap<ClientId, RenetClient, crate::verif::SeededState>;
+
 #[derive(Debug)]
 pub struct RenetServer {
-    connections: HashMap<ClientId, RenetClient>,
+    connections: ConnectionMap,
     connection_config: ConnectionConfig,
     events: VecDeque<ServerEvent>,
 }
@@ -24,7 +30,7 @@ pub struct RenetServer {
 impl RenetServer {
     pub fn new(connection_config: ConnectionConfig) -> Self {
         Self {
-            connections: HashMap::new(),
+            connections: ConnectionMap::default(),
             connection_config,
             events: VecDeque::new(),
         }
